@@ -61,7 +61,10 @@ def _run_task(i):
     t0 = time.time()
     try:
         build, on_path = make(shape)
-        ex.explore(build, on_path, deadline=limits.get("deadline"))
+        if limits.get("subjobs", 1) > 1:
+            ex.explore_parallel(build, on_path, limits["subjobs"], deadline=limits.get("deadline"))
+        else:
+            ex.explore(build, on_path, deadline=limits.get("deadline"))
     except (Unsupported, ResolveError) as e:
         ex.errors.append("unsupported: %s" % e)
     except Exception:  # noqa
@@ -84,7 +87,9 @@ def run_shapes(check, name, shapes, make, jobs=None, budget_s=None, limits=None)
     records, errors = [], []
     summ = dict(paths=0, blocks=0, queries=0, unsat=0, sat=0, solver_s=0.0, panics=0, shapes=len(shapes), aborted=0)
     t0 = time.time()
-    if jobs <= 1 or len(shapes) == 1:
+    if jobs <= 1 or len(shapes) <= 2:
+        limits["subjobs"] = jobs
+        _TASK.update(limits=limits)
         outs = [_run_task(i) for i in range(len(shapes))]
     else:
         ctx = mp.get_context("fork")
